@@ -933,6 +933,11 @@ fn judge_reader(case: &ReaderCase, acc: &mut Acc) -> Option<Violation> {
                 ));
                 break;
             }
+            // a second `set-logic` starts a new solver session (the log of a run that restarted its
+            // solver, as patronus' replay file would hold it): the reference starts afresh as well
+            if *kind == CmdKind::SetLogic && n_read > 1 {
+                refs = RefSolver::new(PROFILES[0].clone(), Policy::canonical(), 0);
+            }
             // reference execution (keeps the symbol table in step)
             let reply = refs.exec(sx);
             if reply.error.is_some() {
@@ -1241,14 +1246,17 @@ impl Property for C14 {
         };
         let obs = scn.execute(false);
         acc.sim_steps += obs.tstats.events;
-        // the first process' commands (one solver session = one script)
+        // the commands of all solver processes of the run in the order they were written (what
+        // patronus' replay file holds): a PDR run that restarts its solver yields several
+        // sessions, each beginning with `set-logic` and declaring the same names again
         let commands: Vec<String> = obs
             .wire
             .iter()
-            .filter(|w| w.proc == 0 && w.cmd != "<syntax error>")
-            .take(400)
+            .filter(|w| w.cmd != "<syntax error>")
+            .take(600)
             .map(|w| w.cmd.clone())
             .collect();
+        acc.count("probe.script_spans_solver_restart", obs.wire.iter().take(600).any(|w| w.proc > 0) as u64);
         if !commands.is_empty() {
             let case = ReaderCase {
                 truncated_tail: if crng.bool() { Some(1 + crng.usize_below(40)) } else { None },
